@@ -209,8 +209,9 @@ def gen_pw(tier, rng):
                 vs[0] = f32b(F32_NAN[0]) if t == FLOAT else f64b(F64_NAN[0])
             truth_vals += vs
             batches.append("%s/%s/%d" % (vals_text(vs), dtxt, nv))
-        out.append(("pw %d %d %s" % (t, maxdef, ",".join(batches)),
-                    {"kind": "pw", "type": t, "vals": [v.hex() for v in truth_vals], "nulls": nulls}))
+        nostats = rng.random() < 0.06
+        out.append(("pw %d %d %s%s" % (t, maxdef, ",".join(batches), " nostats" if nostats else ""),
+                    {"kind": "pw", "type": t, "vals": [v.hex() for v in truth_vals], "nulls": nulls, "nostats": nostats}))
     return out
 
 
@@ -222,7 +223,9 @@ def footer_with_stats(t, flba_len, rgs):
     for g in rgs:
         st = None
         if g["stats"]:
-            st = pq.statistics(max_old=g["omx"], min_old=g["omn"], null_count=g["nc"], max_value=g["mx"], min_value=g["mn"])
+            st = pq.statistics(max_old=g["omx"], min_old=g["omn"], null_count=g["nc"], max_value=g["mx"], min_value=g["mn"],
+                               distinct_count=g.get("dc"), is_max_exact=g.get("xmax"), is_min_exact=g.get("xmin"),
+                               unknown_field=g.get("unk", False))
         if g["meta"]:
             ch = pq.column_chunk(t, ["c"], g["nv"], stats=st)
         else:
@@ -281,6 +284,9 @@ def gen_rd(tier, rng):
                     g.update(mx=f32b(F32_NAN[0]) if t == FLOAT else f64b(F64_NAN[0]), tb=False)
             if rng.random() < 0.1:
                 g["nc"] = None
+            if g["stats"] and rng.random() < 0.4:      # the remaining Statistics fields: passed through / skipped, bounds unaffected
+                g.update(dc=rng.choice([0, 1, 7, 2**40]) if rng.random() < 0.7 else None, xmax=rng.choice([None, True, False]),
+                         xmin=rng.choice([None, True, False]), unk=rng.random() < 0.5)
             rgs.append(g); datas.append(data); allv += data
         file_hex = footer_with_stats(t, flen, rgs).hex()
         s_txt = ";".join("%d/%d/%d/%s/%s/%s/%s/%s" % (g["meta"], g["stats"], g["nv"], "-" if g["nc"] is None else g["nc"],
@@ -313,6 +319,7 @@ def gen_rd(tier, rng):
                     elif g["omn"] and g["omx"]: pair = (g["omn"], g["omx"])
                 exp.append("%d:%d:%d:%d:%s:%s" % (1 if pair else 0, hn, nc, g["nv"], pair[0].hex() if pair else "-", pair[1].hex() if pair else "-"))
             out.append((line, {"kind": "rd", "tb": [g["tb"] for g in rgs], "nrg": nrg, "cs": exp,
+                               "dc": ["-" if not (g["meta"] and g["stats"]) or g.get("dc") is None else str(g["dc"]) for g in rgs],
                                "absent": [e.startswith("0:") for e in exp]}))
     return out
 
@@ -652,7 +659,8 @@ def gen_file(tier, rng):
         w = 4 if t in (INT32, FLOAT) else 8
         ps = [p for p in ps if len(p) == w] or [rand_value(t, rng)]
         page_size = rng.choice([0, 0, 16, 40, 100])      # 0 = the default 1 MiB (one page per chunk); small = several pages
-        out.append(("file %d %d %s %d %s %d" % (t, 1 if nullable else 0, ";".join(groups), rng.randrange(6), hx(rng.choice(ps)), page_size),
+        codec = rng.choice([0, 0, 0, 1, 2, 5, 6, 7])     # UNCOMPRESSED, SNAPPY, GZIP, LZ4, ZSTD, LZ4_RAW
+        out.append(("file %d %d %s %d %s %d %d" % (t, 1 if nullable else 0, ";".join(groups), rng.randrange(6), hx(rng.choice(ps)), page_size, codec),
                     {"kind": "file", "type": t, "groups": metas, "pw": pws if page_size == 0 else []}))
     return out
 
@@ -780,6 +788,67 @@ def run_file_cases(rep, drv, run, cases, dist):
                 rep.tie_broken("file: " + text, {"case": li, "meta": meta})
 
 
+def check_column_index(line, ser):
+    """the ColumnIndex carquet serialises must state exactly what was added: null_pages, min/max values (empty when absent),
+    boundary_order, null_counts (parsed with the independent Thrift reader of pq_min.py)"""
+    st, _, hexs_ = ser.partition(":")
+    if st != "0":
+        return ["carquet_column_index_serialize failed: " + ser[:40]]
+    pages = [p.split("/") for p in line.split()[2].split(";")]
+    try:
+        d, _ = pq.dec_struct(bytes.fromhex(hexs_) if hexs_ != "-" else b"\x00")
+    except Exception as e:
+        return ["the serialised ColumnIndex does not parse: %r" % (e,)]
+    def b(x):
+        return b"" if x in ("-", "e") else bytes.fromhex(x)
+    want = {1: [p[3] == "1" for p in pages], 2: [b(p[1]) for p in pages], 3: [b(p[2]) for p in pages],
+            4: len(pages) % 3, 5: [int(p[0]) for p in pages]}
+    out = []
+    for fid, name in ((1, "null_pages"), (2, "min_values"), (3, "max_values"), (4, "boundary_order"), (5, "null_counts")):
+        if d.get(fid) != want[fid]:
+            got, w = d.get(fid), want[fid]
+            where = next((i for i, (x, y) in enumerate(zip(got, w)) if x != y), "length") if isinstance(got, list) else ""
+            out.append("serialised ColumnIndex of %d pages: %s differs from what was added (first difference at page %s)" % (len(pages), name, where))
+    return out
+
+
+def gen_oix(tier, rng):
+    counts, c0 = growth_page_counts(tier)
+    out = []
+    for n in [0] + [c for c in counts if c <= (70 if tier == "quick" else 600)]:
+        for track in (0, 1):
+            off, row, pages = 4, 0, []
+            for _ in range(n):
+                cs, us = rng.choice([1, 17, 4096, 2**31 - 1]), rng.choice([1, 100, 2**31 - 1])
+                pages.append("%d/%d/%d/%d" % (off, cs, row, us))
+                off += cs
+                row += rng.choice([1, 1000, 2**33])
+            out.append(("oix %d %s" % (track, ";".join(pages) or "-"), {"kind": "oix"}))
+    return out
+
+
+def check_offset_index(line, impl):
+    a = kv(impl)
+    st, _, hexs_ = a.get("ser", "").partition(":")
+    if st != "0" or a.get("addbad") != "0":
+        return ["offset index builder: " + impl[:80]]
+    toks = line.split()
+    pages = [] if toks[2] == "-" else [tuple(int(x) for x in p.split("/")) for p in toks[2].split(";")]
+    try:
+        d, _ = pq.dec_struct(bytes.fromhex(hexs_))
+    except Exception as e:
+        return ["the serialised OffsetIndex does not parse: %r" % (e,)]
+    got = [(p.get(1), p.get(2), p.get(3)) for p in d.get(1, [])]
+    out = []
+    if got != [(p[0], p[1], p[2]) for p in pages]:
+        out.append("serialised OffsetIndex of %d pages: page locations differ from what was added" % len(pages))
+    if toks[1] == "1" and d.get(2) != [p[3] for p in pages]:
+        out.append("serialised OffsetIndex of %d pages: uncompressed_page_sizes differ from what was added" % len(pages))
+    if toks[1] == "0" and 2 in d:
+        out.append("serialised OffsetIndex carries uncompressed sizes although tracking is off")
+    return out
+
+
 # ------------------------------------------------------------------ judging
 
 def kv(line):
@@ -809,6 +878,10 @@ def judge(line, meta, impl, model):
         out.append(("tie", "model: " + model[:200]))
     if kind == "bld":
         body, _, p = impl.rpartition(" P=")
+        body, _, rt = body.rpartition(" RT=")
+        if rt != "same":
+            out.append(("violation", "the builder's statistics written with carquet's metadata writer and read back through "
+                                     "carquet_reader_column_statistics differ: " + rt))
         if model != body and not model.startswith("FAULT"):
             out.append(("tie", "builder model and implementation differ: impl %s / model %s" % (body[:160], model[:160])))
         if p != "1":
@@ -824,6 +897,8 @@ def judge(line, meta, impl, model):
         mtxt = "STATS none" if st is None else "STATS nulls=%s min=%s max=%s" % (st["nulls"], hx(st["min"]), hx(st["max"]))
         if mtxt != model:
             out.append(("tie", "page-writer model and page header differ: header %s / model %s" % (mtxt, model[:120])))
+        if meta.get("nostats") and st is not None:
+            out.append(("violation", "statistics were switched off with carquet_page_writer_set_statistics but the page header carries them"))
         if st is not None:
             vals = [bytes.fromhex(v) for v in meta["vals"]]
             if st["nulls"] != meta["nulls"]:
@@ -840,6 +915,11 @@ def judge(line, meta, impl, model):
                     break
     elif kind == "rd":
         body, _, truth = impl.rpartition(" T=")
+        import re as _re
+        mdc = _re.search(r" dc=(\S+)", body)
+        body = _re.sub(r" dc=\S+", "", body)
+        if mdc and "dc" in meta and int(line.split()[3]) == 0 and mdc.group(1).split(";") != meta["dc"]:
+            out.append(("violation", "carquet_reader_column_statistics distinct_count %s, the file states %s" % (mdc.group(1), ";".join(meta["dc"]))))
         if model != body and not model.startswith("FAULT"):
             a, b = kv(body), kv(model)
             diff = [k for k in sorted(set(a) | set(b)) if a.get(k) != b.get(k)]
@@ -869,13 +949,20 @@ def judge(line, meta, impl, model):
             want = [i for i, m in enumerate(might) if m][:maxidx]
             if got != want or fk != str(len(want)):
                 out.append(("violation", "filter_row_groups returned %s:%s, the might-match row groups capped at %d are %s" % (fk, got, maxidx, want)))
+    elif kind == "oix":
+        for text in check_offset_index(line, impl):
+            out.append(("violation", text))
     elif kind == "pmh" or (kind == "pmw" and line.split()[5] == "all"):
         body, _, truth = impl.rpartition(" T=")
+        truth = truth.split(" ser=")[0]
         if model != body and not model.startswith("FAULT"):
             a, b = kv(body), kv(model)
             diff = [k for k in sorted(set(a) | set(b)) if a.get(k) != b.get(k)]
             out.append(("tie", "column-index model and implementation differ in %s (history of %s pages)" % (diff or "status", meta.get("pages"))))
         got = kv(body).get("m", "")
+        if kind == "pmh":
+            for text in check_column_index(line, kv(impl).get("ser", "")):
+                out.append(("violation", text))
         if "addbad=0" not in body and kind == "pmh":
             out.append(("violation", "carquet_column_index_add_page failed: " + body[:80]))
         for qi, (mq, tq) in enumerate(zip(got.split("|"), truth.split("|"))):
@@ -963,7 +1050,7 @@ def run(tier):
             run_cases(rep, drv, run_, cc, "corpus", dist)
     for name, gen in (("builder", gen_bld), ("page_writer", gen_pw), ("reader", gen_rd), ("reader_long_stats", gen_rd_long),
                       ("helpers", gen_helpers), ("page_index_from_pages", gen_pmw), ("page_index_histories", gen_pmh),
-                      ("page_index_histories_from_pages", gen_pmw_hist)):
+                      ("page_index_histories_from_pages", gen_pmw_hist), ("offset_index", gen_oix)):
         cases = gen(tier, rng)
         run_cases(rep, drv, run_, cases, name, dist)
         rep.sample({"op": name, "case": cases[len(cases) // 3][0][:400]})
@@ -1003,8 +1090,8 @@ def replay(path):
         for kind, text in res:
             print(kind.upper() + ":", text)
         return 1 if res else 0
-    if meta.get("kind") not in ("bld", "pw", "rd", "cmp", "ovl", "pm", "pmw", "pmh"):
-        meta = dict(meta, kind={"builder": "bld", "page_writer": "pw", "reader": "rd", "reader_long_stats": "rd", "page_index_from_pages": "pmw", "page_index_histories": "pmh", "page_index_histories_from_pages": "pmw"}.get(meta.get("kind"), case.split()[0]))
+    if meta.get("kind") not in ("bld", "pw", "rd", "cmp", "ovl", "pm", "pmw", "pmh", "oix"):
+        meta = dict(meta, kind={"builder": "bld", "page_writer": "pw", "reader": "rd", "reader_long_stats": "rd", "page_index_from_pages": "pmw", "page_index_histories": "pmh", "page_index_histories_from_pages": "pmw", "offset_index": "oix"}.get(meta.get("kind"), case.split()[0]))
     res = judge(case, meta, out[0], mo[0] if mo else "RUNNER-ERROR none")
     for kind, text in res:
         print(kind.upper() + ":", text)
